@@ -28,6 +28,7 @@ const PROFILE: Profile = Profile {
     w_z4: 1,
     w_z5: 2,
     clean: 40,
+    z7: 6,
 };
 
 pub struct Oracles {
